@@ -708,9 +708,12 @@ fn c08(r: &Runner) {
             }
         });
         let (cv, cd) = pick(bits, if SWEEP { 60 } else { 600 }, &[]);
-        r.universe(&format!("{cd} x buffer length 0..={}", nb + 2), bits, cv.len(), |i, l| {
+        // buffers up to and beyond the size of the limb storage (8 * LIMBS >= BYTES): whatever the caller keeps after
+        // the first BYTES bytes must survive the copy
+        let top = (8 * nlimbs(bits)).max(nb) + 9;
+        r.universe(&format!("{cd} x buffer length 0..={top}"), bits, cv.len(), |i, l| {
             let a = vu(&cv[i]);
-            for n in 0..=nb + 2 {
+            for n in 0..=top {
                 l.states(1);
                 for &op in COPY {
                     exec(l, bits, op, &[a.clone(), V::n(n)]);
